@@ -54,8 +54,23 @@ void xfree(void *ptr)
   free(ptr);
 }
 
+#ifdef LIBSCIENTIFIC_VERIF
+size_t lsci_verif_nproc = 0;
+void (*lsci_verif_loop_head_cb)(int site, void *a, void *b, void *c) = NULL;
+void (*lsci_verif_pre_conv_cb)(int site, void *t_new, void *t_old) = NULL;
+#endif
+
 void GetNProcessor(size_t *nprocs_online, size_t *nprocs_max)
 {
+  #ifdef LIBSCIENTIFIC_VERIF
+  if(lsci_verif_nproc > 0){
+    if(nprocs_online != NULL)
+      (*nprocs_online) = lsci_verif_nproc;
+    if(nprocs_max != NULL)
+      (*nprocs_max) = lsci_verif_nproc;
+    return;
+  }
+  #endif
   if(nprocs_online != NULL)
     (*nprocs_online) = -1;
   
